@@ -128,3 +128,65 @@ remove_filter = Unit(
 remove_filter.key_suffix = "ignore-filter"
 
 UNITS = [format_code_skip, do_rewrite_range, do_rewrite_node, alter_veto, remove_filter]
+
+
+# ----------------------------------------------------------------------------- the direct-editing helpers on representatives
+# "a line carrying an ignore comment is carried over verbatim ... however the line is nested": the real remove_nodes / alter_code / _replace_nodes are
+# run on one module per place where the comment can stand relative to the node that is to go (its first line, a decorator line, a continuation
+# line, its last line, a line of a nested statement) - a filter that looks at the wrong lines of a node shows here, whatever its code looks like.
+IGNORE_REPRESENTATIVES = [
+    ("comment-on-the-def-line", "def keep(x):  # pyrefact: ignore\n    return x\n\n\nprint(1)\n", "FunctionDef", "def keep(x):  # pyrefact: ignore"),
+    ("comment-on-a-decorator-line", "import functools\n\n\n@functools.lru_cache(maxsize=None)  # pyrefact: ignore\ndef keep(x):\n    return x\n\n\nprint(1)\n", "FunctionDef", "@functools.lru_cache(maxsize=None)  # pyrefact: ignore"),
+    ("comment-on-a-continuation-line-of-a-decorator", "import functools\n\n\n@functools.lru_cache(\n    maxsize=None,  # pyrefact: ignore\n)\ndef keep(x):\n    return x\n\n\nprint(1)\n", "FunctionDef", "    maxsize=None,  # pyrefact: ignore"),
+    ("comment-on-the-last-line-of-the-body", "def keep(x):\n    y = x\n    return y  # pyrefact: ignore\n\n\nprint(1)\n", "FunctionDef", "    return y  # pyrefact: ignore"),
+    ("comment-on-a-nested-statement", "def keep(x):\n    if x:\n        x = 1  # pyrefact: ignore\n    return x\n\n\nprint(1)\n", "FunctionDef", "        x = 1  # pyrefact: ignore"),
+    ("comment-on-a-continuation-line-of-a-call", "print(\n    1,  # pyrefact: ignore\n    2,\n)\nprint(3)\n", "Expr", "    1,  # pyrefact: ignore"),
+    ("comment-on-the-closing-line", "x = [\n    1,\n]  # pyrefact: ignore\nprint(x)\n", "Assign", "]  # pyrefact: ignore"),
+    ("comment-on-a-class-base-line", "class Keep(\n    object,  # pyrefact: ignore\n):\n    pass\n\n\nprint(1)\n", "ClassDef", "    object,  # pyrefact: ignore"),
+    ("comment-in-another-spelling", "def keep(x):  #pyrefact:ignore\n    return x\n\n\nprint(1)\n", "FunctionDef", "def keep(x):  #pyrefact:ignore"),
+    ("skip-file-comment-counts-too", "def keep(x):  # pyrefact: skip_file\n    return x\n\n\nprint(1)\n", "FunctionDef", "def keep(x):  # pyrefact: skip_file"),
+]
+
+
+def gen_direct_edit_representatives(g):
+    import z3
+    from pyvc.replay import call_real
+    from pyvc.unit import find_def, segment_sha
+    fn, text = find_def("processing", "remove_nodes")
+    g.sha = segment_sha(text, fn)
+    g.lines = [fn.lineno, fn.end_lineno]
+    snippet = (
+        "import ast\n"
+        "from pyrefact import processing, core, logs\n"
+        "logs.set_level(100)\n"
+        "out = {}\n"
+        "for lab, src, kind in payload['cases']:\n"
+        "    res = {}\n"
+        "    for how in ('remove_nodes', 'alter_code-removal', 'alter_code-replacement', 'replace_nodes'):\n"
+        "        root = core.parse(src)\n"
+        "        node = next(n for n in root.body if type(n).__name__ == kind)\n"
+        "        try:\n"
+        "            if how == 'remove_nodes':\n"
+        "                res[how] = processing.remove_nodes(src, [node], root)\n"
+        "            elif how == 'alter_code-removal':\n"
+        "                res[how] = processing.alter_code(src, root, removals=[node])\n"
+        "            elif how == 'alter_code-replacement':\n"
+        "                res[how] = processing.alter_code(src, root, replacements={node: ast.Pass()})\n"
+        "            else:\n"
+        "                res[how] = processing._replace_nodes(src, {node: ast.Pass()})\n"
+        "        except Exception as ex:\n"
+        "            res[how] = None\n"
+        "    out[lab] = res\n"
+        "print(json.dumps(out))\n")
+    res = call_real(snippet, {"cases": [(lab, src, kind) for lab, src, kind, _ in IGNORE_REPRESENTATIVES]}, timeout=120)
+    import io
+    for lab, src, kind, line in IGNORE_REPRESENTATIVES:
+        for how, out in sorted((res.get(lab) or {}).items()):
+            if not isinstance(out, str):
+                g.oblige_text("table", f"ignored-line-survives:{how}:{lab}", False, fn.lineno)
+                continue
+            ok = any(ln.rstrip("\r\n") == line for ln in io.StringIO(out, newline="").readlines())
+            g.oblige("table", f"ignored-line-survives:{how}:{lab}", [], z3.BoolVal(ok), fn.lineno,
+                     replay=lambda m, how=how, src=src, out=out, line=line: {"reproduced": True, "input": f"processing.{how.split('-')[0]} asked to take away the node of {src!r}",
+                                                                             "observed": out, "required": f"the line {line!r} is still there, verbatim"})
+    g.assumptions.add("one representative per position of the comment relative to the node; the bounded stand-in varies rules and nesting")
